@@ -99,6 +99,7 @@ func c17ParseCase(in string, cfg parse.Config) Case {
 type jsonGen struct {
 	r        *Rng
 	noF16F21 bool // avoid the known-finding inputs (used for the bulk of the cases)
+	yamlSafe bool // always escape the characters YAML treats as line breaks inside quoted strings
 }
 
 var jsonStrPieces = []string{"a", "b", "xyz", " ", "\"", "\\", "/", "\n", "\t", "\r", "\b", "\f", "\x01", "\x1f", "é", "ü", "日本", "😀", "€", ",", ":", "{", "}", "[", "]", "'", "$", "null", "true", "1", "0x10", " ", " "}
@@ -140,6 +141,8 @@ func (j *jsonGen) encodeStr(s string) string {
 		case r == '\f':
 			b.WriteString(`\f`)
 		case r < 0x20:
+			fmt.Fprintf(&b, `\u%04x`, r)
+		case j.yamlSafe && (r == 0x2028 || r == 0x2029 || r == 0x85):
 			fmt.Fprintf(&b, `\u%04x`, r)
 		case r > 0xffff && !j.noF16F21 && j.r.P(1, 2):
 			r1, r2 := utf16Surr(r)
